@@ -22,7 +22,7 @@ RULE = ("a valid generated module (all kinds, comment-rich layout) and a fault p
         "runs also under all / some include_undocumented_* flags off and with the faulty file first or in the middle of "
         "several command-line inputs or in a subdirectory (-r); independently, a run that succeeds while ANTLR reports 'token recognition error' is a violation. Non-trivial: an "
         "effective fault; distinct by (kind, context class, module hash)")
-RULE_MORE = 'settings variants with a logging section at DEBUG (console or log file) besides the include_undocumented_* vectors. Later: quiet logging configurations; link modes; 1..512 faulty inputs on one command line of a real subprocess.'
+RULE_MORE = 'settings variants with a logging section at DEBUG (console or log file) besides the include_undocumented_* vectors. Later: quiet logging configurations; link modes; 1..512 faulty inputs on one command line of a real subprocess; (round 10) the faulty file among 40 siblings, named like a glob pattern matching valid neighbours, in the input directory with valid subdirectories walked after it.'
 ASSUMPTIONS = ["the reference lexer decides which mutants are invalid; disputed mutants (cmake -P reports no parse error for a "
                "parse-level fault) are dropped and counted, more than 0.5% is a harness error",
                "invalid escape sequences are judged by the grammar of cmake-language(7) (CMake reports them only when the "
@@ -41,7 +41,7 @@ def strategy(tier):
     return st.fixed_dictionaries({
         "module": G.module(p), "layout": G.layout_choices(24),
         "faults": st.lists(plan, min_size=1, max_size=2),
-        "mode": st.sampled_from(["file", "file", "file", "dir", "multi-first", "multi-middle", "subdir", "dir-twin", "multi-prefix", "file-link", "dir-link"]),
+        "mode": st.sampled_from(["file", "file", "dir-many", "glob-name", "root-with-subdirs", "file", "dir", "multi-first", "multi-middle", "subdir", "dir-twin", "multi-prefix", "file-link", "dir-link"]),
         "flags": st.sampled_from(["default", "log-debug", "all-off", "some-off", "default", "log-file", "log-quiet", "log-root-only"]),
         "exhaustive": st.just(tier == "thorough"),
     })
@@ -163,6 +163,27 @@ def run_one(text, mode, res, kind, ctx, flags="default"):
             bad2 = sb.path("else", "mod.cmake")
             os.rename(bad, bad2)
             argv = [gd, bad2, "-r", "-o", out]
+        elif mode == "dir-many":
+            # the faulty module is one of several dozen in its directory
+            for k in range(40):
+                with open(os.path.join(inp, f"m{k:02d}.cmake" if k % 2 else f"z{k:02d}.cmake"), "w") as f:
+                    f.write(f"function(ok_m{k})\nendfunction()\n")
+            argv = [inp, "-o", out]
+        elif mode == "glob-name":
+            # the faulty file's own name reads like a glob pattern that matches valid neighbours (but not itself)
+            bad2 = os.path.join(inp, "toolchain[v2].cmake")
+            os.rename(bad, bad2)
+            for nm in ("toolchain2.cmake", "toolchainv.cmake"):
+                with open(os.path.join(inp, nm), "w") as f:
+                    f.write("function(ok_neighbour)\nendfunction()\n")
+            argv = [bad2, "-o", out]
+        elif mode == "root-with-subdirs":
+            # the faulty file sits in the input directory itself; valid subdirectories are walked after it
+            for sub in ("asub", "zsub"):
+                os.makedirs(os.path.join(inp, sub))
+                with open(os.path.join(inp, sub, "fine.cmake"), "w") as f:
+                    f.write("function(ok_fine)\nendfunction()\n")
+            argv = [inp, "-r", "-o", out]
         elif mode == "multi-first":
             argv = [bad, good[0], good[1], "-o", out]
         elif mode == "multi-middle":
@@ -203,6 +224,8 @@ def run_one(text, mode, res, kind, ctx, flags="default"):
         page = os.path.join(out, "deeper", "faulty.rst") if mode == "subdir" else os.path.join(out, "faulty.rst")
         if mode == "multi-prefix":
             page = os.path.join(out, "mod.rst")
+        if mode == "glob-name":
+            page = os.path.join(out, "toolchain[v2].rst")
         if mode == "dir-twin":
             page = os.path.join(out, "no-such-page")      # faulty.rst legitimately comes from the valid twin
         failed = r.exc is not None or r.code != 0
